@@ -322,12 +322,26 @@ class C14(core.Check):
         g = c12.G(rnd, main)
         g.w('\\usepackage{babel}\n')
         g.seq(rnd.randint(2, 6))
+        rep_offsets = []
+        if case['s'] % 5 < 2:
+            # the very same foreign passage twice: two identical parts are submitted in one run, each occurrence of
+            # a flagged word must be reported at its own place
+            lang = g.other()
+            for k in range(2):
+                g.w('\n\\begin{otherlanguage}{%s}\n' % lang)
+                for j in range(5):
+                    rep_offsets.append(g.n)
+                    g.w('yrepz' + (' ' if j < 4 else ''))
+                g.w('\n\\end{otherlanguage}\n')
+                g.word()
+                g.w(' ')
+                g.word()
         for _ in range(rnd.randint(0, 2)):
             g.probe()
         g.w('\n')
         src = ''.join(g.buf)
         T, R = case['T'], case['R']
-        plan = {'mode': 'words', 'regex': r'w\d+z', 'every': case['every']}
+        plan = {'mode': 'words', 'regex': r'w\d+z|yrepz', 'every': case['every']}
         args = ['--multi-language', '--language', main, '--ml-continue-threshold', str(T),
                 '--ml-rule-threshold', str(R), '--disable', 'RULEA', '--enable', 'RULEB',
                 '--disablecategories', 'CATA', '--ml-disable', 'MLRULE', '--ml-disablecategories', 'MLCAT',
@@ -392,11 +406,17 @@ class C14(core.Check):
             if w in pos_of and (off, ln) != (pos_of[w], len(w)):
                 detail.update(word=w, got=[off, ln], want=[pos_of[w], len(w)])
                 return dict(ok=False, nt=True, key='ml:location', cnt=cnt, obs=None, detail=detail)
+        reps = [off for w, off, ln in got if w == 'yrepz']
+        if len(reps) != len(set(reps)) or any(o not in rep_offsets for o in reps):
+            detail.update(reported=reps, occurrences=rep_offsets)
+            return dict(ok=False, nt=True, key='ml:repeated-part:location', cnt=cnt, obs=None, detail=detail)
+        if rep_offsets:
+            cnt['ml_repeated_parts'] = 1
         offs = [o for _, o, _ in got]
         if offs != sorted(offs):
             detail.update(offsets=offs)
             return dict(ok=False, nt=True, key='ml:order', cnt=cnt, obs=None, detail=detail)
-        flagged = sum(1 for c in r.calls for k, _ in enumerate(re.findall(r'w\d+z', c['text']), 1) if k % case['every'] == 0)
+        flagged = sum(1 for c in r.calls for k, _ in enumerate(re.findall(r'w\d+z|yrepz', c['text']), 1) if k % case['every'] == 0)
         if len(got) != flagged:
             detail.update(reported=len(got), flagged=flagged)
             return dict(ok=False, nt=True, key='ml:message-count', cnt=cnt, obs=None, detail=detail)
@@ -536,7 +556,7 @@ class C14(core.Check):
     def quotas(self, tier):
         return {'fam_doc': 40, 'docs_with_own_checks': 10, 'plain_input_docs': 8, 'flagged_words_judged': 300, 'fam_ml': 25, 'ml_words_judged': 100,
                 'ml_runs_with_several_parts': 10, 'ml_short_parts': 5, 'pairs_judged': 50, 'server_requests': 10, 'server_option_checks': 10,
-                'docs_with_non_ascii_words': 5, 'split_words': 20}
+                'docs_with_non_ascii_words': 5, 'split_words': 20, 'ml_repeated_parts': 8}
 
 
 CHECK = C14
